@@ -44,32 +44,59 @@ theorem encodeUint_head (n : Nat) : ∃ b t, encodeUint n = b :: t ∧ b / 32 = 
             n / 4294967296 % 256, n / 16777216 % 256, n / 65536 % 256, n / 256 % 256, n % 256],
             by simp [h1, h2, h3, h4], by omega⟩
 
-theorem parseTop_uint (n : Nat) (h : n < 18446744073709551616) (r : Bytes) :
-    parseTop (encodeUint n ++ r) = Top.scalar (Item.uint n) := by
+theorem readTagged_encodeUint (f n : Nat) (h : n < 18446744073709551616) (r : Bytes) :
+    readTagged (f + 1) (encodeUint n ++ r) = some (Item.uint n, r) := by
   obtain ⟨b, t, he, hb⟩ := encodeUint_head n
   have hs := readScalar_encodeUint n h r
   rw [he] at hs ⊢
   simp only [List.cons_append] at hs ⊢
+  unfold readTagged
+  have : ¬ (b / 32 = 6) := by omega
+  simp only [this, ↓reduceIte]
+  exact hs
+
+theorem readTagged_encodeBool (f : Nat) (b : Bool) (r : Bytes) :
+    readTagged (f + 1) (encodeBool b ++ r) = some (Item.bool b, r) := by
+  have hs := readScalar_encodeBool b r
+  cases b <;> simp only [encodeBool, List.cons_append, List.nil_append] at hs ⊢ <;>
+    (unfold readTagged; simp; exact hs)
+
+theorem parseTop_uint (n : Nat) (h : n < 18446744073709551616) (r : Bytes) :
+    parseTop (encodeUint n ++ r) = Top.scalar (Item.uint n) := by
   unfold parseTop
-  simp [hb, hs]
+  rw [readTagged_encodeUint _ n h r]
 
 theorem readItems2 (m : Nat) (hm : m < 18446744073709551616) (b : Bool) (r : Bytes) :
     readItems 2 (encodeUint m ++ (encodeBool b ++ r)) = some ([Item.uint m, Item.bool b], r) := by
-  simp [readItems, readScalar_encodeUint m hm, readScalar_encodeBool]
+  simp [readItems, readTagged_encodeUint _ m hm, readTagged_encodeBool]
 
 theorem readItems4 (m p : Nat) (hm : m < 18446744073709551616) (hp : p < 18446744073709551616)
     (b c : Bool) (r : Bytes) :
     readItems 4 (encodeUint m ++ (encodeBool b ++ (encodeUint p ++ (encodeBool c ++ r)))) =
       some ([Item.uint m, Item.bool b, Item.uint p, Item.bool c], r) := by
-  simp [readItems, readScalar_encodeUint m hm, readScalar_encodeUint p hp, readScalar_encodeBool]
+  simp [readItems, readTagged_encodeUint _ m hm, readTagged_encodeUint _ p hp, readTagged_encodeBool]
+
+/-- an array head is neither a tagged scalar nor tagged: `parseTop` goes to `parseArr` -/
+theorem parseTop_array_head (b : Nat) (r : Bytes) (hb : b / 32 = 4) :
+    parseTop (b :: r) = parseArr (b :: r) := by
+  unfold parseTop
+  have h6 : ¬ (b / 32 = 6) := by omega
+  have hrt : readTagged ((b :: r).length + 1) (b :: r) = none := by
+    unfold readTagged
+    simp only [List.length_cons, h6, ↓reduceIte]
+    unfold readScalar
+    simp [hb]
+  have hst : stripTags ((b :: r).length + 1) (b :: r) = some (b :: r) := by
+    unfold stripTags
+    simp [h6]
+  rw [hrt, hst]
 
 theorem parseTop_arr2 (m : Nat) (hm : m < 18446744073709551616) (b : Bool) (r : Bytes) :
     parseTop (130 :: (encodeUint m ++ encodeBool b) ++ r) = Top.arr [Item.uint m, Item.bool b] := by
   have hl := encodeUint_length_pos m
-  have : ¬ (2 > (encodeUint m ++ (encodeBool b ++ r)).length) := by
-    simp [encodeBool]; omega
-  unfold parseTop
   simp only [List.cons_append, List.append_assoc]
+  rw [parseTop_array_head 130 _ (by decide)]
+  unfold parseArr
   have hb : (encodeBool b).length = 1 := by simp [encodeBool]
   simp [readArg, readItems2 m hm]
   omega
@@ -80,10 +107,9 @@ theorem parseTop_arr4 (m p : Nat) (hm : m < 18446744073709551616) (hp : p < 1844
       Top.arr [Item.uint m, Item.bool b, Item.uint p, Item.bool c] := by
   have hl := encodeUint_length_pos m
   have hl2 := encodeUint_length_pos p
-  have : ¬ (4 > (encodeUint m ++ (encodeBool b ++ (encodeUint p ++ (encodeBool c ++ r)))).length) := by
-    simp [encodeBool]; omega
-  unfold parseTop
   simp only [List.cons_append, List.append_assoc]
+  rw [parseTop_array_head 132 _ (by decide)]
+  unfold parseArr
   have hb : (encodeBool b).length = 1 := by simp [encodeBool]
   have hc : (encodeBool c).length = 1 := by simp [encodeBool]
   simp [readArg, readItems4 m p hm hp]
@@ -117,8 +143,8 @@ theorem decode_encode (d : VData) (hw : d.wf) (r : Bytes) :
     simp only [decode, encode, parseTop_arr2 m hm64, decodeArr, asU32, asBool]
     simp [hm]
   · simp only [decode, encode, parseTop_arr4 m ps hm64 hp, decodeArr, asU32, asBool, asU64]
-    simp [hm]
+    simp [hm, hp]
   · simp only [decode, encode, parseTop_arr4 m ps hm64 hp, decodeArr, asU32, asBool, asU64]
-    simp [hm]
+    simp [hm, hp]
 
 end GV.Proofs.VersionData
